@@ -16,6 +16,8 @@ Groups of cases (one forked worker call per case; `g` selects the group):
   rot  full product (number of RoT keys 1..4) x (used index) x key set (x CA flag) per protocol class.
   bind binding matrix per protocol class: responses for every (credential_i, challenge_j, uuid_k)
        verified against every other triple.
+  reuse one response configuration dictionary reused for 3 (quick) / 4 (thorough) different challenges, every protocol
+       class: each response answers its own challenge and equals the one a fresh dictionary gives.
   hist object histories per protocol class: from a new / signed / parsed credential object every sequence
        of <= 3 (quick) / 4 (thorough) operations over {sign, export, parse(export) and go on with the parsed
        object, set one field, set another field, set two fields, set two fields to second values}; every
@@ -111,6 +113,57 @@ def kpath(name: str, form: str) -> str:
     return fixtures.key_path(name, kind == "priv", enc)
 
 
+PASSPHRASE = "correct horse battery staple"
+_ENC: dict = {}
+
+
+def enc_key_path(name: str, enc: str) -> str:
+    """The fixture private key `name` as a passphrase-protected PKCS#8 file (PEM | DER), written with `cryptography` into
+    the run's work directory on first use (the salt/IV are random; nothing that is judged depends on the file bytes)."""
+    if (name, enc) not in _ENC:
+        d = os.path.join(os.environ.get("VERIF_WORKDIR") or tempfile.gettempdir(), "c15-enc-keys")
+        os.makedirs(d, exist_ok=True)
+        path = os.path.join(d, f"{name}.enc.{enc}")
+        if not os.path.exists(path):
+            from cryptography.hazmat.primitives import serialization as ser
+
+            k = ser.load_der_private_key(fixtures.read(f"keys/{name}.der"), None, unsafe_skip_rsa_key_validation=True)
+            data = k.private_bytes(ser.Encoding.PEM if enc == "pem" else ser.Encoding.DER, ser.PrivateFormat.PKCS8,
+                                   ser.BestAvailableEncryption(PASSPHRASE.encode()))
+            part = f"{path}.{os.getpid()}"
+            with open(part, "wb") as f:
+                f.write(data)
+            os.replace(part, path)
+        _ENC[(name, enc)] = path
+    return _ENC[(name, enc)]
+
+
+class PromptSeam:
+    """The operator at the passphrase prompt: the seam the repository's own tests use
+    (spsdk.crypto.signature_provider.prompt_for_passphrase), answered with the passphrase; counts the prompts."""
+
+    def __init__(self) -> None:
+        self.count = 0
+        self.saved: list = []
+
+    def _answer(self) -> str:
+        self.count += 1
+        return PASSPHRASE
+
+    def __enter__(self) -> "PromptSeam":
+        import spsdk.crypto.keys as ck
+        import spsdk.crypto.signature_provider as sp
+
+        for mod in (sp, ck):
+            self.saved.append((mod, mod.prompt_for_passphrase))
+            mod.prompt_for_passphrase = self._answer
+        return self
+
+    def __exit__(self, *a) -> None:
+        for mod, fn in self.saved:
+            mod.prompt_for_passphrase = fn
+
+
 def pattern(name: str, n: int, seed: int, tag: str) -> bytes:
     if name == "zeros":
         return bytes(n)
@@ -146,7 +199,7 @@ def dims_for(cls: str) -> dict[str, list]:
             "fuse": [0, 1, 255],
             "dck": ["std", "signer"] if rsa else ["std", "x0", "y0", "signer"],
             "skey": ["std", "alt"] if rsa else ["std", "x0", "y0"],  # the signing (SRK) key
-            "signer": ["key-pem", "key-der", "sp-file"],
+            "signer": ["key-pem", "key-der", "sp-file", "key-enc-pem", "sp-file-enc-pw"],
             "keyform": ["pub.pem", "pub.der", "priv.pem"],
             "cfgform": ["int", "hex-str"],
             "reuse": ["fresh-config", "same-config-twice"],
@@ -162,10 +215,10 @@ def dims_for(cls: str) -> dict[str, list]:
         "vu": [0x5678, 0, 1, U32],
         "beacon": [0, 1, 0xFFFF, U32],
         "rot": ([(4, 1)] if c["layout"] == "ele" else [(3, 1)]),
-        "keyset": [0, 1],
+        "keyset": ["std", "alt", "dup-two-slots", "all-same"],
         "dck": ["std", "rot", "othersize", "othertype"] if rsa else ["std", "x0", "y0", "rot", "othersize", "othertype"],
         "verarg": ["none", "explicit"],
-        "signer": ["rotk-pem", "rotk-der", "sp-file"],
+        "signer": ["rotk-pem", "rotk-der", "sp-file", "rotk-enc-pem", "rotk-enc-der", "sp-file-enc-pw"],
         "keyform": ["pub.pem", "pub.der", "priv.pem"],
         "cfgform": ["int", "hex-str"],
         "reuse": ["fresh-config", "same-config-twice"],
@@ -174,7 +227,7 @@ def dims_for(cls: str) -> dict[str, list]:
         "dacuuid": ["same", "zeros", "ones", "pattern"],
         "dacver": ["match", "other"],
         "dacsocc": ["family", "other"],
-        "darpath": ["create", "ctor", "config", "config-sp", "create-nofamily"],
+        "darpath": ["create", "ctor", "config", "config-sp", "create-nofamily", "config-enc", "config-sp-enc-pw"],
     }
     d["rot"] = d["rot"] + [p for p in ROT_PAIRS if p != d["rot"][0]]
     if c["layout"] == "ele":
@@ -348,7 +401,8 @@ def plan_classic(case: dict) -> dict:
     seed = case.get("seed", 0)
     pool_std, pool_alt, dck_std = POOLS[c["pool"]]
     n, used = val["rot"]
-    keys = (pool_alt if val["keyset"] else pool_std)[:n]
+    keys = {"std": pool_std, "alt": pool_alt, "dup-two-slots": [pool_std[0], pool_std[1], pool_std[0], pool_std[2]],
+            "all-same": [pool_std[0]] * 4}[val["keyset"]][:n]  # the list as written: the same file may fill several slots
     dck = {"std": dck_std, "x0": f"{c['pool']}_x0", "y0": f"{c['pool']}_y0", "rot": keys[used],
            "othersize": OTHER_SIZE[c["pool"]], "othertype": OTHER_TYPE[c["pool"]]}[val["dck"]]
     uuid = pattern(val["uuid"], 16, seed, "dcuuid")
@@ -369,10 +423,15 @@ def classic_config(p: dict) -> dict:
         "cc_socu": num(val["socu"]), "cc_vu": num(val["vu"]), "cc_beacon": num(val["beacon"]),
         "rot_meta": [kpath(k, form) for k in p["keys"]], "rot_id": num(p["used"]), "dck": kpath(p["dck"], form),
     }
-    if val["signer"] == "sp-file":
+    sg = val["signer"]
+    if sg == "sp-file":
         cfg["sign_provider"] = f"type=file;file_path={kpath(used_key, 'priv.pem')}"
+    elif sg == "sp-file-enc-pw":  # protected key file, password configured
+        cfg["sign_provider"] = f"type=file;file_path={enc_key_path(used_key, 'pem')};password={PASSPHRASE}"
+    elif sg in ("rotk-enc-pem", "rotk-enc-der"):  # protected key file, no password configured: SPSDK prompts
+        cfg["rotk"] = enc_key_path(used_key, sg[-3:])
     else:
-        cfg["rotk"] = kpath(used_key, "priv.pem" if val["signer"] == "rotk-pem" else "priv.der")
+        cfg["rotk"] = kpath(used_key, "priv.pem" if sg == "rotk-pem" else "priv.der")
     if val.get("ca"):
         cfg["flag_ca"] = True
     if val["socc"] == "legacy":
@@ -472,7 +531,7 @@ def judge_classic_bytes(p: dict, data: bytes, o: Obs) -> Optional[dict]:
     o.c("dc_signatures_verified_by_reference")
     if not ok:
         alt = parsed["rot_key"]["type"] == "rsa" and R.verify_dc(data, parsed, not p["pss"])
-        o.v("dc-signature", ("other-padding:signer=" + val["signer"].split("-")[0]) if alt else "does-not-verify",
+        o.v("dc-signature", ("other-padding:signer=" + val["signer"]) if alt else "does-not-verify",
             f"RoT key index {p['used']}, padding expected {'PSS' if p['pss'] else 'PKCS1-v1.5'}", scope=lk(p["cls"]))
     else:
         if R.verify_dc(data, parsed, p["pss"], fast=True) is not True:
@@ -725,13 +784,17 @@ def judge_dar(p: dict, dc: Any, data: bytes, dacd: dict, dac: Any, o: Obs, tmp: 
             # create() has no revision argument: the response class comes from the family's latest revision
             o.c("dar_create_without_revision_argument_unusable")
             path = "ctor"
-    elif path in ("config", "config-sp"):
+    elif path in ("config", "config-sp", "config-enc", "config-sp-enc-pw"):
         dcf = os.path.join(tmp, "dc.bin")
         with open(dcf, "wb") as f:
             f.write(data)
         cfg = {"family": fam["family"], "revision": fam["rev"], "certificate": dcf, "beacon": val["abeacon"]}
         if path == "config":
             cfg["dck_private_key"] = dck_priv
+        elif path == "config-enc":  # protected DCK file, no password configured: SPSDK prompts
+            cfg["dck_private_key"] = enc_key_path(p["dck"], "pem")
+        elif path == "config-sp-enc-pw":
+            cfg["sign_provider"] = f"type=file;file_path={enc_key_path(p['dck'], 'pem')};password={PASSPHRASE}"
         else:
             cfg["sign_provider"] = f"type=file;file_path={dck_priv}"
         st, dar = call(DebugAuthenticateResponse.load_from_config, cfg, dac)
@@ -960,6 +1023,10 @@ def ele2_config(p: dict) -> dict:
         cfg["uuid"] = "0x" + (p["uuid"].hex() if val["cfgform"] == "int" else p["uuid"].hex().upper())
     if val["signer"] == "sp-file":
         cfg["signature_provider_0"] = f"type=file;file_path={kpath(p['skey'], 'priv.pem')}"
+    elif val["signer"] == "sp-file-enc-pw":
+        cfg["signature_provider_0"] = f"type=file;file_path={enc_key_path(p['skey'], 'pem')};password={PASSPHRASE}"
+    elif val["signer"] == "key-enc-pem":
+        cfg["signing_key_0"] = enc_key_path(p["skey"], "pem")
     else:
         cfg["signing_key_0"] = kpath(p["skey"], "priv.pem" if val["signer"] == "key-pem" else "priv.der")
     return cfg
@@ -1023,7 +1090,7 @@ def w_ele2(case: dict) -> dict:
         o.c("dc_signatures_verified_by_reference")
         if not ok:
             alt = signer["type"] == "rsa" and R.verify_sig(signer, data[:parsed["sig_off"]], parsed["signature"], pss=False)
-            o.v("dc-signature", ("other-padding:signer=" + val["signer"].split("-")[0]) if alt else "does-not-verify",
+            o.v("dc-signature", ("other-padding:signer=" + val["signer"]) if alt else "does-not-verify",
                 f"signing key {p['skey']}", scope=lk(cls))
         else:
             tamper_sweep(o, parsed["regions"], data, parsed["sig_off"],
@@ -1346,8 +1413,124 @@ def w_hist(case: dict) -> dict:
     return o.result()
 
 
-WORKERS = {"fam": w_classic, "lat": w_classic, "rot": w_classic, "bind": w_bind, "hist": w_hist}
-WORKERS2 = {"fam": w_ele2, "lat": w_ele2, "hist": w_hist}
+# ---------------------------------------------------------------------------------------------
+# one configuration dictionary, several challenges
+
+
+def w_reuse(case: dict) -> dict:
+    """A caller keeps ONE response configuration (dict object) and answers several challenges with it (retry after a
+    time-out: the device issues a new challenge; several boards served by one script).  Every response must answer ITS
+    challenge - the challenge bytes inside the response (EdgeLock v2) and under the DCK signature (all classes) - and must
+    equal, outside the (random) signature, the response a fresh dictionary gives."""
+    from spsdk.dat.dar_packet import DebugAuthenticateResponse
+
+    cls = case["cls"]
+    o = Obs(cls)
+    ele2 = CLASSES[cls]["layout"] == "ele2"
+    fam = fam_of(case)
+    seed = case.get("seed", 0)
+    tmp = tempfile.mkdtemp(prefix="c15-", dir=os.environ.get("VERIF_WORKDIR") or None)
+    try:
+        if ele2:
+            p = plan_ele2({**case, "dep": {}})
+            built = build_ele2(p, o, False, ele2_config(p))
+        else:
+            p = plan_classic({**case, "dep": {}})
+            built = build_classic(p, o, False)
+        if built is None:
+            return o.result()
+        dc, data = built
+        dcf = os.path.join(tmp, "dc.bin")
+        with open(dcf, "wb") as f:
+            f.write(data)
+        dck = knum(p["dck"])
+        dpss = ele2 or (bool(fam["pss"]) and dck["type"] == "rsa")
+        with_uuid = (not ele2) and p["ver"][0] == 2
+        uuid16 = p["uuid"] if p["uuid"] is not None else bytes(16)
+
+        def new_config() -> dict:
+            if ele2:
+                srk = [p["skey"]] + [k for k in p["pool"] if k != p["skey"]][:3]
+                return {"family": fam["family"], "revision": fam["rev"], "certificate": dcf, "beacon": 3, "srk_set": "oem",
+                        "used_srk_id": 0, "srk_revoke_mask": 0, "signing_key": kpath(p["dck"], "priv.pem"),
+                        "output": os.path.join(tmp, "dar.bin"), "srk_table": {"flag_ca": False, "srk_array": [kpath(k, "pub.pem") for k in srk]}}
+            return {"family": fam["family"], "revision": fam["rev"], "certificate": dcf, "beacon": 3,
+                    "dck_private_key": kpath(p["dck"], "priv.pem")}
+
+        rounds = []
+        for i, (cp, up) in enumerate((("seed", "same"), ("zeros", "ones"), ("counter", "pattern"), ("ones", "zeros"))[:case.get("n", 3)]):
+            chal = pattern(cp, 32, seed, "challenge")
+            duuid = uuid16 if up == "same" else pattern(up, 16, seed, "dacuuid")
+            ver = (2, 0) if ele2 else p["ver"]
+            hl = dac_hash_len(fam, ver)
+            dacb = R.build_dac(ver, fam["socc"], duuid, 0, core.seeded_bytes(seed, "rkth", hl), 0, 0, 0, chal, bool(fam["swapped"]))
+            rounds.append((chal, duuid, dacb))
+        shared = new_config()
+        before = core.jdump(shared)
+        answers = []
+        for i, (chal, duuid, dacb) in enumerate(rounds):
+            row = {}
+            for kind, cfg in (("reused", shared), ("fresh", new_config())):
+                dac = make_dac({"bytes": dacb, "ver": (2, 0) if ele2 else p["ver"], "socc": fam["socc"], "uuid": duuid, "chal": chal,
+                                "rkth": core.seeded_bytes(seed, "rkth", dac_hash_len(fam, (2, 0) if ele2 else p["ver"])), "revocation": 0,
+                                "pinned": 0, "default": 0, "cc_vu": 0, "swapped": bool(fam["swapped"]), "fam": fam}, o)
+                if dac is None:
+                    return o.result()
+                st, dar = call(DebugAuthenticateResponse.load_from_config, cfg, dac)
+                if st == "ok":
+                    st, dar = call(dar.export)
+                if st != "ok":
+                    builder_outcome(o, st, dar, f"dar-config-{kind}", False)
+                    row = None
+                    break
+                row[kind] = dar
+            if row is None:
+                break
+            answers.append(row)
+            o.c("dar_built", 2)
+        if core.jdump(shared) != before:
+            o.c("response_config_dict_changed_by_load_from_config")  # counted; what is demanded is that later answers are right
+        for i, row in enumerate(answers):
+            chal, duuid, _ = rounds[i]
+            for kind in ("reused", "fresh"):
+                rb = row[kind]
+                if ele2:
+                    try:
+                        m = R.parse_signed_msg_v2(rb)
+                    except (R.DatError, struct.error) as e:
+                        o.v("dar-embeds", f"reused-config:unreadable:{kind}", str(e), scope="ele2")
+                        continue
+                    ok = R.verify_signed_msg_v2(rb, m, dck, fast=True)
+                    inside = m["challenge"]
+                    mine = inside == chal and m["certificate"] == data and m["beacon"] == 3
+                    other = next((j for j, r in enumerate(rounds) if j != i and r[0] == inside), None)
+                else:
+                    parts = R.split_dar(rb, len(data), with_uuid)
+                    ok = R.verify_dar(parts, dck, data, 3, duuid if with_uuid else None, chal, dpss, fast=True)
+                    mine = parts["dc"] == data and parts["beacon"] == 3 and (not with_uuid or parts["uuid"] == duuid)
+                    other = next((j for j, r in enumerate(rounds) if j != i and R.verify_dar(
+                        parts, dck, data, 3, r[1] if with_uuid else None, r[0], dpss, fast=True)), None)
+                o.c("dar_reuse_answers_judged")
+                which = f"{'first' if i == 0 else 'later'}-answer-of-{kind}-config"
+                if other is not None:
+                    o.v("dar-binding", f"reused-config:{which}:answers-another-challenge",
+                        f"response #{i} carries / verifies for the challenge of request #{other}", scope=p["layout"])
+                elif not ok or not mine:
+                    o.v("dar-signature" if mine else "dar-embeds", f"reused-config:{which}:{'does-not-verify' if mine else 'wrong-content'}",
+                        f"response #{i}", scope=p["layout"])
+            a, b = row["reused"], row["fresh"]
+            cut = R.parse_signed_msg_v2(b)["signed_end"] if ele2 else len(data) + 4 + (16 if with_uuid else 0)
+            if a[:cut] != b[:cut] or len(a) != len(b):
+                o.v("dar-embeds", f"reused-config:{'first' if i == 0 else 'later'}-answer-differs-from-fresh-config",
+                    f"response #{i}: the two differ before the signature", scope=p["layout"])
+        o.distinct.append(f"reuse|{cls}|{fam['kind_key']}")
+    finally:
+        shutil.rmtree(tmp, ignore_errors=True)
+    return o.result()
+
+
+WORKERS = {"fam": w_classic, "lat": w_classic, "rot": w_classic, "bind": w_bind, "hist": w_hist, "reuse": w_reuse}
+WORKERS2 = {"fam": w_ele2, "lat": w_ele2, "hist": w_hist, "reuse": w_reuse}
 
 
 def w_dispatch(case: dict) -> dict:
@@ -1356,9 +1539,14 @@ def w_dispatch(case: dict) -> dict:
     logging.getLogger("spsdk").setLevel(logging.CRITICAL)
     if case["g"] == "cli":
         return w_cli(case)
-    if CLASSES[case["cls"]]["layout"] == "ele2":
-        return WORKERS2[case["g"]](case)
-    return WORKERS[case["g"]](case)
+    with PromptSeam() as seam:
+        if CLASSES[case["cls"]]["layout"] == "ele2":
+            res = WORKERS2[case["g"]](case)
+        else:
+            res = WORKERS[case["g"]](case)
+    if seam.count:
+        res.setdefault("count", {})["passphrase_prompts_answered"] = seam.count
+    return res
 
 
 # ---------------------------------------------------------------------------------------------
@@ -1516,6 +1704,15 @@ def build_cases(tier: str, seed: int, ftab: list[dict], cli: bool) -> tuple[list
     # slow classes (RSA-4096 key loads) first, for an even load at the end of the run
     lat.sort(key=lambda c: 0 if CLASSES[c["cls"]]["pool"] == "rsa4096" else (1 if CLASSES[c["cls"]]["pool"] == "rsa2048" else 2))
     cases += [c for c in lat if c not in cases[:3]]
+    # reuse: one response configuration dict for several challenges; every protocol class on the first representative of
+    # each layout kind (thorough: of each class key)
+    reuse_done: set = set()
+    for key, fams in rep_list.items():
+        if quick and fams[0]["kind"] in reuse_done:
+            continue
+        reuse_done.add(fams[0]["kind"])
+        for cls in classes_for(fams[0]):
+            cases.append({"g": "reuse", "cls": cls, "fam": fkey(fams[0]), "seed": seed, "n": 3 if quick else 4})
     # hist: object histories for every protocol class, on the first representative of each layout kind
     hist_done: set = set()
     for key, fams in rep_list.items():
@@ -1540,6 +1737,9 @@ def build_cases(tier: str, seed: int, ftab: list[dict], cli: bool) -> tuple[list
             dims = dims_for(cls)
             for ri in range(len(dims["rot"])):
                 for ks in range(len(dims["keyset"])):
+                    nkeys = dims["rot"][ri][0]
+                    if (dims["keyset"][ks] == "dup-two-slots" and nkeys < 3) or (dims["keyset"][ks] == "all-same" and nkeys < 2):
+                        continue  # the list is the standard one
                     for ca in range(len(dims.get("ca", [0]))):
                         dep = {a: b for a, b in (("rot", ri), ("keyset", ks), ("ca", ca)) if b}
                         cases.append({"g": "rot", "cls": cls, "fam": fkey(fams[0]), "dep": dep, "seed": seed, "rotsel": f"{ri}/{ks}/{ca}"})
